@@ -199,13 +199,26 @@ pub fn finish(ctx: &Ctx, mut r: Report, replay: Option<&dyn Fn(&Value) -> Result
             exit = 2;
         }
     }
+    // a run that used up its wall budget was cut short (slow or heavily loaded machine): later phases legitimately never ran, the
+    // evidence says so (guards_zero_under_time_cap + the per-world cap fields) and the verdict covers what was explored
+    let time_capped = ctx.elapsed() >= 0.85 * ctx.budget_s;
+    let mut capped_zero: Vec<String> = vec![];
     for (g, n) in &r.guards {
         r.coverage.insert(format!("guard_{g}"), json!(n));
         if *n == 0 && exit == 0 {
             // (a run that stopped at a violation legitimately leaves later guards at zero)
-            eprintln!("MACHINERY ERROR: vacuity guard '{g}' is zero — the check did not exercise what it claims");
-            exit = 2;
+            if time_capped {
+                eprintln!("WARNING: vacuity guard '{g}' is zero, but the run was cut by its time budget ({:.0} s of {:.0} s) — not exercised in this run", ctx.elapsed(), ctx.budget_s);
+                capped_zero.push(g.clone());
+            } else {
+                eprintln!("MACHINERY ERROR: vacuity guard '{g}' is zero — the check did not exercise what it claims");
+                exit = 2;
+            }
         }
+    }
+    r.coverage.insert("run_cut_by_time_budget".into(), json!(time_capped));
+    if !capped_zero.is_empty() {
+        r.coverage.insert("guards_zero_under_time_cap".into(), json!(capped_zero));
     }
     if !r.coverage.contains_key("samples") {
         r.coverage.insert("samples".into(), json!([]));
